@@ -36,7 +36,8 @@ THEOREMS = ["C14_static_text_roundtrip", "C14_static_text_no_binding_start", "C1
             "C14_static_text_roundtrip_real_scanner", "C14_expression_string_literal_roundtrip",
             "C14_expression_print_parse_roundtrip", "C14_expression_roundtrip_any_tail", "C14_integer_literal_roundtrip",
             "C14_binding_print_parse_roundtrip", "C14_mixed_value_roundtrip", "C14_static_value_roundtrip",
-            "C14_single_binding_value_roundtrip", "C14_resolved_expression_roundtrip"]
+            "C14_single_binding_value_roundtrip", "C14_resolved_expression_roundtrip",
+            "C14_template_data_roundtrip"]
 
 
 def _norm_nodes(nodes):
